@@ -12,6 +12,9 @@ open Ls
 structure Inst where
   cfg : Txn.Cfg
   env : Txn.Env
+  /-- what the sync loop would hold as `lastSyncedTxnID`: the id returned by the last `SendOnce`,
+      or by the last `LoadOnce` that saw no local change (token `R` of the protocol) -/
+  lastRet : Nat := 0
 
 structure LoopInst where
   cfg : SyncLoop.LoopCfg
